@@ -1,0 +1,50 @@
+//go:build verif
+
+package value
+
+import (
+	"math"
+	"os"
+	"sync"
+	"time"
+)
+
+// VerifPoison, when true, makes Discard poison the object instead of handing it
+// back to the pool: a later read of a discarded value shows the poison, and a
+// second Discard of the same object is reported through VerifReport.
+var VerifPoison = os.Getenv("VERIF_POISON") == "1"
+
+const VerifPoisonString = "☠DISCARDED☠"
+const VerifPoisonInteger = int64(-7777777777777)
+
+var VerifPoisonFloat = math.Float64frombits(0xC2A0F0F0F0F0F0F0)
+var VerifPoisonDatetime = time.Date(1666, 6, 6, 6, 6, 6, 0, time.UTC)
+
+// VerifReport is called with "double_discard" when an object is discarded twice.
+var VerifReport func(kind string, p Primary)
+
+var verifDiscarded sync.Map
+
+func verifDiscard(p Primary) bool {
+	if !VerifPoison || p == nil {
+		return false
+	}
+	switch v := p.(type) {
+	case *String:
+		v.literal = VerifPoisonString
+	case *Integer:
+		v.value = VerifPoisonInteger
+	case *Float:
+		v.value = VerifPoisonFloat
+	case *Datetime:
+		v.value = VerifPoisonDatetime
+	default:
+		return false
+	}
+	if _, loaded := verifDiscarded.LoadOrStore(p, true); loaded {
+		if VerifReport != nil {
+			VerifReport("double_discard", p)
+		}
+	}
+	return true
+}
